@@ -281,6 +281,28 @@ theorem piecewise_spec (ctx : Ctx ℝ) (p : String) (b : List ℝ) (x : ℝ) (hx
       cases hvi'
       exact hv'
 
+/-- `equilibrium_equation_spec`: for an instance `v` of `MassActionEq` / `GibbsEqConst` (any expression with value `K`), an
+equilibrium with at least one substance and positive concentrations, `v.equilibrium_equation(variables, equilibrium=eq)` is
+`K − ∏ products^ν / ∏ reactants^ν` (written with the signed exponents of the code). -/
+theorem equilibrium_equation_spec (ctx : Ctx ℝ) (v : Val ℝ) (K : ℝ) (prod reac : List (String × ℤ)) (c : String → ℝ)
+    (hK : eval ctx v = .ok K) (hne : eqExponents prod reac ≠ [])
+    (hc : ∀ p ∈ eqExponents prod reac, ctx.vars p.1 = some (c p.1) ∧ 0 < c p.1) :
+    equilibriumEquation ctx v prod reac
+      = .ok (K - ((prod.map fun p => c p.1 ^ p.2).prod * (reac.map fun p => c p.1 ^ (-p.2)).prod)) := by
+  unfold equilibriumEquation
+  rw [hK]
+  simp only [ok_bind]
+  cases hl : eqExponents prod reac with
+  | nil => exact absurd hl hne
+  | cons p rest =>
+    obtain ⟨k, e⟩ := p
+    rw [hl] at hc
+    rw [eqConcProd_pos_none ctx c k e rest hc]
+    simp only [pure_eq_ok]
+    congr 2
+    rw [← hl, eqExponents, List.map_append, List.prod_append, List.map_map]
+    rfl
+
 /-! ## backends -/
 
 /-- `backend_naturality`.  For every map `φ` between two number structures that commutes with `+ − · / neg`, integer
